@@ -4,6 +4,7 @@
 //   node ::= ( ((id accept)..) ((pattern template)..) ((pattern node)..) pk pid )
 //   extra log entries: (30 (30 id)) middleware ran | (30 (31 id pathUtf8)) process() ran
 #include <QCoreApplication>
+#include <functional>
 #include <memory>
 #include <vector>
 #include <QMap>
@@ -174,14 +175,32 @@ void runConnectionOn(Server *server, Val &log, const Val &ops)
     for (auto &op : ops.l) r.step(op);
     r.finish();
 }
+// the same, calling [accepted] right after the connection has been handed to the server
+static void runConnectionOn(Server *server, Val &log, const Val &ops, const std::function<void()> &accepted)
+{
+    ConnRunner r(server, &log);
+    bool done = false;
+    for (auto &op : ops.l) {
+        r.step(op);
+        if (!done && op.at(0).asInt() == 4) { done = true; accepted(); }
+    }
+    r.finish();
+}
 
 static Val run_srv(const Val &c)
 {
     Log log;
     QObject scope;
     Server *server = new Server(&scope);
-    if (c.at(0).size()) server->setHandler(build(c.at(0), &log, &scope));
-    runConnectionOn(server, log.v, c.at(1));
+    // when the root handler is installed: (id / 8) % 3 == 0 before the connection is accepted; 1: after it was accepted (none
+    // before); 2: after it was accepted, replacing another handler.  The handler in force when the request arrives routes it.
+    Handler *tree = c.at(0).size() ? build(c.at(0), &log, &scope) : nullptr;
+    int when = tree ? (int(c.at(0).at(4).asInt()) / 8) % 3 : 0;
+    if (when == 0) { if (tree) server->setHandler(tree); runConnectionOn(server, log.v, c.at(1)); }
+    else {
+        if (when == 2) server->setHandler(new Handler(&scope));
+        runConnectionOn(server, log.v, c.at(1), [server, tree]() { server->setHandler(tree); });
+    }
     delete server;
     QCoreApplication::sendPostedEvents(nullptr, QEvent::DeferredDelete);
     return log.v;
